@@ -9,6 +9,9 @@ CLAIMS = {
  "C01": ("stateful property-based testing: phase-aware packet-history generator vs reference tunnel NFA + accept/relay logs (rapid)",
          "Generated packet histories (valid, out-of-order, repeated, malformed, after-end probes) are sent over both transports to the in-process gateway wired as in main.go and to the real binary; the observed responses, end-of-stream, accept logs and relayed bytes of harness-owned listeners must be a run of a reference NFA written from the statement. Exploration, not proof.",
          "4 C01"),
+ "C06": ("property-based testing: generated stream pairs, packetisations and schedules vs byte-exact stream equality + independent packet decoder (rapid)",
+         "Two position-dependent byte streams (up to 256 KiB quick / 2 MiB thorough), a split of the client stream into DATA packets (boundary sizes, length fields shorter/longer than carried), a split of the host stream into writes and an interleaving are generated; the host must receive exactly the declared payloads and the client exactly the host stream, every DATA packet decoding strictly. In-process and real binary, both transports.",
+         "4 C06"),
  "C08": ("metamorphic property-based testing: same packet sequence under generated segmentations (rapid)",
          "For generated packet sequences and generated segmentations of their byte stream (one/two/multi cuts, header cuts, coalescing, free cuts) the history (responses, accepts, relayed bytes, end) must equal the one-packet-per-unit run; unframeable streams must end the tunnel without later effects. Exploration.",
          "4 C08"),
